@@ -607,7 +607,7 @@ def render_loop_contract(loop, probe_labels):
     return lines
 
 
-def lift_closure(text, name, captures, where, free=False, generics="", uncalled=False):
+def lift_closure(text, name, captures, where, free=False, generics="", uncalled=False, ret_type=None):
     """R25 (closure conversion): `let mut NAME = |PARAMS| { BODY };` inside a function is removed, its calls
     `NAME(args)` become `Self::verif_closure_NAME(CAPTURE_ARGS, args)`, and the closure becomes the associated
     function `fn verif_closure_NAME(CAPTURE_PARAMS, PARAMS) { BODY }` (body verbatim). `captures` lists the
@@ -628,7 +628,7 @@ def lift_closure(text, name, captures, where, free=False, generics="", uncalled=
     bstart = None
     bend = None
     mret = re.match(r"\s*->\s*([^{]*?)\s*\{", text[p1 + 1:])
-    ret_ty = mret.group(1) if mret else None
+    ret_ty = mret.group(1) if mret else ret_type   # a closure without `-> T` gets the unit's type (checked by rustc)
     scan_from = p1 + 1 + (mret.end() - 1 if mret else 0)
     for i, t in enumerate(toks):
         if t.start >= scan_from and t.text == "{":
@@ -690,7 +690,7 @@ def extract_fn_text(fn):
         return sf, it, text
     if lift:
         parent, lifted = lift_closure(text, lift["closure"], lift["captures"], "%s::%s" % (fn.file, fn.key),
-                                      free=lift.get("free", False), generics=lift.get("generics", ""), uncalled=lift.get("uncalled", False))
+                                      free=lift.get("free", False), generics=lift.get("generics", ""), uncalled=lift.get("uncalled", False), ret_type=lift.get("ret_type"))
         text = parent if lift["part"] == "parent" else lifted
     return sf, it, text
 
